@@ -105,6 +105,25 @@ class Explorer(object):
         shutil.rmtree(self.tmp, ignore_errors=True)
 
     def note_dataset(self, D):
+        # the logging configuration is part of the environment the properties quantify over ("every loaded analysis", whatever
+        # the application does with the logging module): one case in ten runs with DEBUG enabled on pyham's loggers and a
+        # handler attached to each of them (r9-C09a: a debug message that consumes an iterator the next statement needs)
+        import logging
+        if not hasattr(self, '_logrng'):
+            self._logrng = random.Random(self.seed * 7919 + 17)
+            self._nullh = logging.NullHandler()
+        dbg = self._logrng.random() < 0.1
+        logging.getLogger('pyham').setLevel(logging.DEBUG if dbg else logging.NOTSET)
+        logging.disable(logging.NOTSET if dbg else logging.CRITICAL)      # (observe.py silences the logging module otherwise)
+        for m_ in ('ham', 'mapper', 'parsers', 'taxonomy', 'TreeProfile', 'iham', 'abstractgene', 'genome'):
+            lg_ = logging.getLogger('pyham.' + m_)
+            lg_.propagate = not dbg           # (nothing is printed)
+            if dbg and self._nullh not in lg_.handlers:
+                lg_.addHandler(self._nullh)
+            elif not dbg and self._nullh in lg_.handlers:
+                lg_.removeHandler(self._nullh)
+        if dbg:
+            self.res.count('cases_with_debug_logging')
         nt, st, poly = nontrivial(D)
         self.res.evaluations += 1
         h = core.case_hash(D.T, D.naming, D.groups, D.species)
@@ -202,6 +221,9 @@ def dataset_stream(ex, n, exhaustive):
                 yield D
     for _ in range(n):
         D = respell(ex.rng, std_dataset(ex.rng))
+        if ex.rng.random() < 0.1:
+            # `og` attributes next to the ids (top-level groups included, og != id): a label, not a second id (r9-C01b)
+            D.groups = gen.add_og_attrs(ex.rng, D.groups); ex.res.count('cases_with_og_attributes')
         if D.naming == 'own' and ex.rng.random() < 0.12:
             # TaxRange labels naming a clade ABOVE the level of the group (e.g. a file exported for a subset of species):
             # the level rule places a multi-species group by its members, whatever the label says
@@ -288,6 +310,10 @@ def explore_load(prop, tier, seed, oracle, tags, n_quick, emit=(), with_truth=Fa
                         bad.append('gene %s has a parent but is not reachable from any listed top-level HOG' % g_.unique_id)
                     if g_.parent is not None and g_.get_top_level_hog() not in h.get_list_top_level_hogs():
                         bad.append('gene %s reports a top-level HOG that is not listed' % g_.unique_id)
+            elif D.meta.get('species_level') and prop == 'C03':
+                # outside the history domain (D7): the MRCA-rule oracle does not apply; the whole hierarchy is compared with the
+                # model, which follows the dissolving branch and its depth patch (r9-C03a)
+                bad = []
             else:
                 bad = oracle(D, h)
             if prop in ('C01', 'C04'):
@@ -400,7 +426,7 @@ def c02(tier, seed):
     return res
 
 def c03(tier, seed):
-    return explore_load('C03', tier, seed, orc.c03, ['load', 'forest', 'members'], 1200, with_truth=True)
+    return explore_load('C03', tier, seed, orc.c03, ['load', 'forest', 'members'], 1200, with_truth=True, species_level=True)
 
 def c04(tier, seed):
     return explore_load('C04', tier, seed, orc.c04, ['load', 'genomes', 'agname'], 900)
@@ -571,6 +597,13 @@ def explore_profiles(prop, tier, seed, n_quick):
         if ex.rng.random() < 0.4:
             kw['top_positions'] = 'any'
         D = respell(ex.rng, std_dataset(ex.rng, **kw)) if k >= 2 else large_dataset(ex.rng)
+        if k in (3, 4):
+            # the smallest species tree: one species, no ancestral level at all ("for every loaded analysis the profile exists":
+            # its only node is the root, which carries its genome size).  Singleton genes only.
+            D = gen.Dataset(('HUMAN', ()), 'own' if k == 3 else 'synth')
+            D.species = [('HUMAN', [('g%d' % i_, [('protId', 'P%d' % i_)]) for i_ in range(1, 2 + k)])]
+            D.groups = []; D.families = []; D.base_groups = []; D.meta = dict(single_species=True)
+            ex.res.count('single_species_trees')
         if k % 7 == 6:
             # duplications of which a single copy is left in the file (a paralogGroup with one member): outside the
             # spelled-history domain, but the profiles are defined for them and the model computes them
@@ -724,7 +757,13 @@ def c11(tier, seed):
                             meth([one_])
                         ex.res.count('selectors_added_one_by_one')
                     else:
-                        meth(ids_)
+                        # the ids are handed over as a list, or as some other iterable: tuple, set-free generator, iterator, dict
+                        # keys (the documented type is "list", every one of these worked on the unchanged tree; r9-C11b peeks
+                        # at the first element of a one-shot iterator)
+                        shape_ = ex.rng.choice(['list', 'list', 'tuple', 'generator', 'iter', 'dictkeys'])
+                        ex.res.count('selectors_as_' + shape_)
+                        meth(ids_ if shape_ == 'list' else tuple(ids_) if shape_ == 'tuple' else (x_ for x_ in ids_) if shape_ == 'generator'
+                             else iter(ids_) if shape_ == 'iter' else dict.fromkeys(ids_).keys())
                 if kind in ('hog', 'int', 'ext', 'union'):
                     next_carried = (f, list(hog_ids), list(int_ids), list(ext_ids))
             want_fams, named = selected_families(D, set(hog_ids), set(int_ids), set(ext_ids))
@@ -831,6 +870,7 @@ def c12(tier, seed):
             continue
         o = ob.Obs(); o.put('load', 'ok'); bad = []
         nwk = core.nwk_of(D)
+        held12 = []
         for top in h.get_list_top_level_hogs():
             for nd in all_nodes(top):
                 if not isinstance(nd, ag.HOG):
@@ -894,9 +934,25 @@ def c12(tier, seed):
                         bad.append('iHam page of %s: family data records differ from the members' % key)
                     if vis.famdata not in html:
                         bad.append('iHam page of %s does not embed the family data' % key)
+                    held12.append((key, vis, members))
                 except Exception as e:      # noqa
                     bad.append('create_iHam(%s) raised %s: %s' % (key, type(e).__name__, e))
                 nd.hogvis = None
+        # a page that was handed out does not change when other pages / exports (of sub-HOGs, of ancestors sharing its genes)
+        # are built afterwards: read every held page again
+        for key, vis, members in held12[:40]:
+            try:
+                xs2 = vis.orthoxml.get_orthoxml_str()
+                root2 = etree.fromstring(xs2.encode())
+                ns = '{http://orthoXML.org/2011/}'
+                declared2 = collections.Counter((g.get('id'), sp.get('name')) for sp in root2.findall(ns + 'species') for g in sp.iter(ns + 'gene'))
+                ex.res.count('pages_read_again_after_later_exports')
+                if declared2 != members:
+                    bad.append('the page of %s built earlier now declares %s, members are %s' % (key, sorted(declared2), sorted(members)))
+                if xs2.split('<groups')[-1] not in vis.HTML:
+                    bad.append('the page of %s built earlier no longer embeds its own orthoXML' % key)
+            except Exception as e:      # noqa
+                bad.append('re-reading the page of %s raised %s: %s' % (key, type(e).__name__, e))
         if bad:
             ex.fail(cid, D, bad)
         ex.submit(cid, D, o.tags, ['load', 'idecl', 'irt', 'ifam'], emit=['iham'], extra=o)
@@ -917,6 +973,50 @@ def c12(tier, seed):
 
 # ------------------------------------------------------------------------------------ C16
 
+def deep_family_navigation(n):
+    """caterpillar tree of n species, one family with a member in every species, written as n-1 nested groups; the
+    navigation lists of the top-level HOG must hold every gene / HOG / level exactly once (iterative checks only)"""
+    nwk = 'S0'
+    for i in range(1, n):
+        nwk = '(%s,S%d)N%d' % (nwk, i, i)
+    nwk += ';'
+    sp = ''.join('<species name="S%d" NCBITaxId="%d"><database name="d" version="1"><genes><gene id="%d" protId="P%d"/></genes></database></species>' % (i, i + 1, i + 1, i) for i in range(n))
+    grp = '<orthologGroup id="c1"><geneRef id="1"/><geneRef id="2"/></orthologGroup>'
+    for i in range(2, n):
+        grp = '<orthologGroup id="c%d">%s<geneRef id="%d"/></orthologGroup>' % (i, grp, i + 1)
+    xml = ('<?xml version="1.0" encoding="UTF-8"?><orthoXML xmlns="http://orthoXML.org/2011/" version="0.3" origin="verif" originVersion="1">'
+           + sp + '<groups>' + grp + '</groups></orthoXML>')
+    bad = []
+    try:
+        h = pyham.Ham(tree_file=nwk, hog_file=xml, orthoXML_as_string=True, use_internal_name=True)
+        tops = h.get_list_top_level_hogs()
+        if len(tops) != 1:
+            return ['deep family: %d top-level HOGs' % len(tops)]
+        top = tops[0]
+        for rnd in (1, 2):
+            dg = top.get_all_descendant_genes()
+            if len(dg) != n or len(set(map(id, dg))) != n:
+                bad.append('deep family (pass %d): descendant genes lists %d entries, %d distinct, the family has %d genes' % (rnd, len(dg), len(set(map(id, dg))), n))
+            dh = top.get_all_descendant_hogs()
+            if len(dh) != n - 1 or len(set(map(id, dh))) != n - 1:
+                bad.append('deep family (pass %d): descendant HOGs lists %d entries, %d distinct, the family has %d HOGs' % (rnd, len(dh), len(set(map(id, dh))), n - 1))
+            lv = top.get_all_descendant_hog_levels()
+            if len(lv) != n - 1 or len(set(map(id, lv))) != n - 1:
+                bad.append('deep family (pass %d): level list has %d entries, %d distinct' % (rnd, len(lv), len(set(map(id, lv)))))
+            bysp = top.get_all_descendant_genes_clustered_by_species()
+            if len(bysp) != n or any(len(v) != 1 for v in bysp.values()):
+                bad.append('deep family (pass %d): per-species clustering has %d species, sizes %s' % (rnd, len(bysp), sorted(set(len(v) for v in bysp.values()))))
+        g0 = h.get_gene_by_id(1)
+        if g0.get_top_level_hog() is not top:
+            bad.append('deep family: the deepest gene reports another top-level HOG')
+        mid = dh[len(dh) // 2]
+        got = g0.get_at_level(mid.genome)
+        if len(got) != 1 or got[0] is not mid:
+            bad.append('deep family: get_at_level of the deepest gene at a middle level returns %d objects' % len(got))
+    except Exception as e:      # noqa
+        bad.append('deep family raised %s: %s' % (type(e).__name__, str(e)[:200]))
+    return bad
+
 def c16(tier, seed):
     ex = Explorer('C16', tier, seed)
     n = budget(tier, 500)
@@ -930,6 +1030,13 @@ def c16(tier, seed):
             D = respell(ex.rng, std_dataset(ex.rng))
         cid = 'C16-%d' % k
         ex.note_dataset(D)
+        if k == 1:
+            # a family nested several hundred levels deep (one species joining per level of a caterpillar tree): the
+            # visitor recurses once per level -- oracle only
+            bd_ = deep_family_navigation(650)
+            ex.res.count('deep_family_650_levels')
+            if bd_:
+                ex.fail(cid + '-deep', D, bd_, call='caterpillar of 650 species, one family nested 649 levels deep')
         h = load_or_fail(ex, cid, D)
         if h is None:
             continue
@@ -948,6 +1055,20 @@ def c16(tier, seed):
                 o.put('atlevel', '%s@%s=%s' % (nodekey(m), taxS(p), txt))
                 queries.append('(atlevel %s %s)' % (gen.q(nodekey(m)), tax_q(p)))
                 ex.res.count('atlevel_' + ('err' if txt.startswith('err') else 'ok'))
+            if k % 4 == 2 and not bad:
+                # "for every HOG": also one whose children were edited through the public API (remove_child / add_child) after it
+                # had been navigated -- the views of every HOG of the family must again describe the same subtree.  Last use
+                # of this analysis.
+                hogs_ = [x for x in members if isinstance(x, ag.HOG)]
+                cands_ = [(x1, g_) for x1 in hogs_ if len(x1.children) >= 2 for g_ in x1.children if isinstance(g_, ag.Gene) and not g_.arose_by_duplication]
+                if cands_ and len(hogs_) >= 2:
+                    x1, g_ = ex.rng.choice(cands_)
+                    x2 = ex.rng.choice([x for x in hogs_ if x is not x1 and x.get_top_level_hog() is x1.get_top_level_hog()] or [None])
+                    if x2 is not None:
+                        x1.remove_child(g_); x2.add_child(g_)
+                        ex.res.count('navigated_again_after_an_edit')
+                        bad += ['after moving gene %s from %s to %s with remove_child / add_child: %s' % (g_.unique_id, nodekey(x1), nodekey(x2), b_)
+                                for b_ in orc.c16_views(h)]
         except Exception as e:      # noqa
             bad = ['navigation raised %s: %s' % (type(e).__name__, e)]
         if bad:
@@ -1085,6 +1206,14 @@ def c19(tier, seed):
                     bad.append('gene %s: cross-references changed after the caller modified the dict returned by get_dict_xref()' % g.unique_id)
             except TypeError:
                 pass
+            # "each gene keeps all its cross-reference ids": every one of them still leads to the gene -- also when the value
+            # happens to be the internal id of another gene
+            for k_, v_ in xr.items():
+                try:
+                    if not any(x_ is g for x_ in h.get_genes_by_external_id(v_)):
+                        bad.append('gene %s is not found under its cross-reference %s=%r' % (g.unique_id, k_, v_))
+                except KeyError:
+                    bad.append('gene %s: its cross-reference %s=%r raises KeyError' % (g.unique_id, k_, v_))
             try:
                 if g.unique_id not in repr(g):
                     bad.append('display string of gene %s lacks its id' % g.unique_id)
@@ -1247,6 +1376,28 @@ def c20(tier, seed):
                     o.put('frejected', 'yes')
                 ex.res.count('faults_also_loaded_through_a_filter')
                 q20 = ['(filter 0 (hog %s) (ext) (int))' % ' '.join(map(gen.q, tids20))]
+            if not late_kw and j % 4 == 1:
+                # ... the same faulty file with progress reporting switched on (the bars are opened and closed around the very
+                # elements that raise: r9-C20b), and -- header faults -- through filters that select no family at all (a query
+                # matching nothing; a query naming only a singleton gene): the species section is validated all the same (r9-C20a)
+                import contextlib as _cl, io as _io
+                routes_ = [('with progress reporting', dict(with_parser_progress=True))]
+                if kind in ('unknown-species', 'internal-as-species'):
+                    fe_ = pyham.ParserFilter(); fe_.add_hogs_via_hogId(['no-such-family'])
+                    routes_.append(('through a filter that selects nothing', dict(filter_object=fe_)))
+                    refd_ = set(orc.refs_of(gr))
+                    single_ = [g_ for _, gs_ in sp for g_, _ in gs_ if g_ not in refd_]
+                    if single_:
+                        fs_ = pyham.ParserFilter(); fs_.add_hogs_via_GeneIntId([ex.rng.choice(single_)])
+                        routes_.append(('through a filter naming one singleton gene', dict(filter_object=fs_)))
+                for what_, kw_ in routes_:
+                    ex.res.count('faults_' + what_.replace(' ', '_'))
+                    try:
+                        with _cl.redirect_stderr(_io.StringIO()):
+                            core.load_py(D, groups=gr, species=sp, **kw_)
+                        ex.fail(cid + '-r', D, ['%s accepted %s: an analysis object was returned' % (kind, what_)], groups=gr, species=sp)
+                    except Exception:      # noqa
+                        pass
             ex.submit(cid, D, o.tags, [], groups=gr, species=sp, hist=False, extra=(kind, o), queries=q20)
     # ---- the same in species_resolve_mode="OMA" (a clade named as species resolves to its only child that looks like
     # an OMA species code; everything else as in the default mode)
